@@ -12,7 +12,7 @@ TECHNIQUE = ("bounded-exhaustive enumeration of device-activity multisets (type 
              "real get_gpu_kernel_breakdown / get_gpu_user_annotation_breakdown vs recount reference model")
 RULE = ("(a) type table: every multiset (mult<=2, min start=0) of <=Ka activities, span in G_T, type in "
         "{computation, communication, memory} x include_memory_kernels in {True,False} x row orders x N1 tie "
-        "orders, plus a 2-rank file slice; (b) per-kernel table: every multiset (mult<=2) of <=Kb kernels over "
+        "orders, plus a 2-rank file slice and a session slice (the same object ran a critical-path analysis of one launch window | decode_symbol_ids | the other summary getters before); (b) per-kernel table: every multiset (mult<=2) of <=Kb kernels over "
         "names x durations (one type, fixed extra communication kernels) x num_kernels in {1,2,3,10} x "
         "duration_ratio in {0.5,0.8,1.0}, evaluated through get_gpu_kernel_breakdown and, with the same multiset "
         "as GPU user annotations, through get_gpu_user_annotation_breakdown. non-trivial = (a) two or more "
@@ -68,6 +68,11 @@ def worlds(tier: str, stats: Dict[str, Any]) -> Iterator[Any]:
         if len(ms) == 2:
             stats["transitions"] += 1
             yield dict(mode="afile", T=T, ranks=[[list(i) for i in ms]], mem=True, no_corr=True)
+            if all(i[1] > i[0] for i in ms):
+                # session slice: the same object was used for other analyses before
+                for pk in ("cp", "decode", "getters"):
+                    stats["transitions"] += 1
+                    yield dict(mode="afile", T=T, ranks=[[list(i) for i in ms]], mem=True, prior=pk)
     for seq in ivworlds.history_sequences():
         stats["transitions"] += len(seq)
         yield dict(mode="history", seq=seq)
@@ -209,7 +214,10 @@ def check(world) -> Dict[str, Any]:
             from mc import htaenv
 
             per_rank = {r: its for r, its in enumerate(world["ranks"])}
-            tas = [htaenv.load_world({r: ivworlds.events_for(its, no_corr=bool(world.get("no_corr"))) for r, its in per_rank.items()})[0]]
+            tas = [htaenv.load_world({r: ivworlds.events_for(its, no_corr=bool(world.get("no_corr")), spread=bool(world.get("prior")))
+                                      for r, its in per_rank.items()})[0]]
+            if world.get("prior"):
+                htaenv.prior_session(tas[0], world["prior"])
         mem = world["mem"]
         exp = expected_types(per_rank, mem)
         ta = None
